@@ -50,7 +50,8 @@ pub fn build_xml(rec: &Value) -> String {
                 let amt = dec_opt(&d["amt"]).unwrap();
                 let charge = dec_opt(&d["charge"]).unwrap();
                 let dcd = if d["rev"] == true { if cd == "CRDT" { "DBIT" } else { "CRDT" } } else { cd };
-                s.push_str(&format!("<TxDtls><Refs><AcctSvcrRef>R{}-{}</AcctSvcrRef></Refs><Amt Ccy=\"CHF\">{}</Amt><CdtDbtInd>{}</CdtDbtInd>\n", k + 1, j + 1, two(amt), dcd));
+                let reference = if e["sameref"] == true { format!("R{}", k + 1) } else { format!("R{}-{}", k + 1, j + 1) };
+                s.push_str(&format!("<TxDtls><Refs><AcctSvcrRef>{}</AcctSvcrRef></Refs><Amt Ccy=\"CHF\">{}</Amt><CdtDbtInd>{}</CdtDbtInd>\n", reference, two(amt), dcd));
                 if !charge.is_zero() {
                     if d["figures"] != false {
                     s.push_str(&format!("<AmtDtls><InstdAmt><Amt Ccy=\"CHF\">{}</Amt></InstdAmt><TxAmt><Amt Ccy=\"CHF\">{}</Amt></TxAmt></AmtDtls>\n", two(amt - charge), two(amt - charge)));
